@@ -183,6 +183,19 @@ def templates(roles, rng):
         ("nested", ("if", ("in", N1, ("range", num("0"), True, N2, True)), ("list", [("call", F, [N1, num("1")]), ("path", C, "entry")]), ("null",))),
         ("nested:2", ("for", [("x", ("dom_list", ("filter", L, ("cmp", "<", ("name", "item"), N1), "pred")))], ("ctx", [("k", ("add", ("name", "x"), N2)), ("m", ("call", F, [("name", "k"), N1]))]))),
     ]
+    # introduced names that EXTEND a bound name by a word or by a symbol and a word (the declaration must not be cut at the bound prefix)
+    e1, e2 = roles["n2"] + " zq", roles["n2"] + "-zq"
+    out += [
+        ("for:variable-extends-bound-name", ("for", [(e1, ("dom_list", L))], ("add", ("name", e1), N2))),
+        ("for:variable-extends-bound-name:symbol", ("for", [(e2, ("dom_list", L))], ("add", ("name", e2), N1))),
+        ("for:second-variable-extends-first", ("for", [("vv", ("dom_list", L)), ("vv ww", ("dom_list", ("list", [num("1"), num("2")])))], ("add", ("name", "vv"), ("name", "vv ww")))),
+        ("some:variable-extends-bound-name", ("some", [(e1, L)], ("cmp", ">", ("name", e1), N2))),
+        ("every:variable-extends-bound-name", ("every", [(e2, L)], ("cmp", "!=", ("name", e2), N2))),
+        ("context:key-extends-bound-name", ("path", ("ctx", [(e1, N1), ("other", ("add", ("name", e1), N2))]), "other")),
+        ("context:key-extends-earlier-key", ("path", ("ctx", [("kk", N1), ("kk mm", N2), ("other", ("sub", ("name", "kk mm"), ("name", "kk")))]), "other")),
+        ("function:parameter-extends-bound-name", ("call", ("fundef", [e1, "qq"], ("sub", ("name", e1), ("name", "qq"))), [N1, N2])),
+        ("function:parameter-extends-earlier-parameter", ("call", ("fundef", ["pp", "pp rr"], ("sub", ("name", "pp"), ("name", "pp rr"))), [N1, N2])),
+    ]
     if "n3" in roles:
         N3 = ("name", roles["n3"])
         # with a, b and a<sym>b all bound, `a <sym> b` IS the bound name (longest match); the other operators are arithmetic
